@@ -312,12 +312,13 @@ type zpair struct {
 
 // zvMutated: which rule lists of the parsed policies held by the shared parsed-policy cache no longer
 // correspond to their rule text. Two observations, results united:
-//  (a) direct: the cached parsed policy (if reachable under the content-hash key) differs from a fresh
-//      parse of the same text (zvMutatedLists);
-//  (b) behavioural, independent of the cache key format: each policy ALONE, under a new policy ID (so
-//      the authorizer cache misses but the parsed-policy cache hits), is compiled through the shared
-//      caches and compared with the reference of that single policy; a differing named decision names
-//      the rule list of the single policy's deciding rule.
+//
+//	(a) direct: the cached parsed policy (if reachable under the content-hash key) differs from a fresh
+//	    parse of the same text (zvMutatedLists);
+//	(b) behavioural, independent of the cache key format: each policy ALONE, under a new policy ID (so
+//	    the authorizer cache misses but the parsed-policy cache hits), is compiled through the shared
+//	    caches and compared with the reference of that single policy; a differing named decision names
+//	    the rule list of the single policy's deciding rule.
 func (m *zmon) mutated(c *structs.ACLCaches, pairs []zpair) []string {
 	found := map[string]bool{}
 	var objs []*structs.ACLPolicy
